@@ -18,9 +18,9 @@ proved where the callbacks are modelled (C13, C14) and otherwise only searched b
 harness (`harness/c11.go`), which says so in the evidence.
 
 END-TO-END totality (`call_total_<f>`: `Fn.Call` on ANY list of well-formed values returns a value
-or an ordinary error) is proved for 41 functions: `hasindex` (slice d11) and, in slice d11b, `keys`,
+or an ordinary error) is proved for 42 functions: `hasindex` (slice d11) and, in slice d11b, `keys`,
 `values`, `reverse`, `coalescelist`, `compact`, `chunklist`, `index`, `range`, the 16 number / bool
-functions of `D11b.table`, the 14 string functions of `D11b.glueTable` (for every library) and `log`, `pow`
+functions of `D11b.table`, the 15 string / time functions of `D11b.glueTable` (for every library) and `log`, `pow`
 (for every answer of the math library).
 `merge` is a counterexample (`call_total_merge_counterexample`).  For all other functions the
 clause is searched by the harness only.
@@ -688,7 +688,7 @@ theorem range_fuel_suffices (down : Bool) (stop step x : Num) (hf : Stdlib.isFin
 
 /-- **The string functions that are `cty.StringVal ∘ library` are total, for EVERY library**: `upper`, `lower`,
 `reverse` (of a string), `title`, `trimspace`, `chomp`, `trim`, `trimprefix`, `trimsuffix`, `replace`,
-`regex_replace`, `split`, `indent`, `substr` (string.go, string_replace.go, regexp.go; protocol instances over
+`regex_replace`, `split`, `indent`, `substr`, `timeadd` (string.go, string_replace.go, regexp.go, datetime.go; protocol instances over
 the `Impl` models of C14, `D11b.glueTable`).  `L` stands for the Go standard library, x/text's NFC and the
 grapheme-cluster scanner: no law of the library is assumed — whatever strings it returns, `Call` on
 well-formed arguments of any kind returns a value or an ordinary error.  (That the LIBRARY call itself does
@@ -712,7 +712,7 @@ theorem call_total_log_pow (nfc : String → Bool) :
 theorem string_functions_listed :
     D11b.glueTable.map (·.2.1) = ["UpperFunc", "LowerFunc", "ReverseFunc", "TitleFunc", "TrimSpaceFunc", "ChompFunc",
       "TrimFunc", "TrimPrefixFunc", "TrimSuffixFunc", "ReplaceFunc", "RegexReplaceFunc", "SplitFunc", "IndentFunc",
-      "SubstrFunc"] := by decide
+      "SubstrFunc", "TimeAddFunc"] := by decide
 
 theorem string_functions_static :
     ∀ e ∈ D11b.glueTable, ∃ T, staticTy? e.2.2.1 = some T ∧ ∀ L E as, (e.2.2.2 L).tf E as = .ok T := D11b.glueTable_static
@@ -754,7 +754,8 @@ set_option maxRecDepth 16384 in
 /-- **the model specs ARE the regenerated table entries**: for every function proved total above, the
 parameter declarations of the model spec (types and the four `Allow*` flags of every parameter, the
 variadic parameter) are those the BUILT code reports (`Generated.stdlibSpecs`), the declared static type
-and `RefineResult: refineNonNull` are what the SOURCE says (`Generated.stdlibSyntax`) -/
+and the declared `RefineResult` (`refineNonNull`, or none: `index`, `timeadd`) are what the SOURCE says
+(`Generated.stdlibSyntax`).  (It has already refused a wrong model spec: `timeadd` with `refineNonNull`.) -/
 theorem d11b_specs_are_table_entries :
     (D11b.table.all fun e =>
       match Std.find? e.2.1, Std.syntax? e.2.1 with
@@ -764,7 +765,8 @@ theorem d11b_specs_are_table_entries :
     (D11b.glueTable.all fun e =>
       match Std.find? e.2.1, Std.syntax? e.2.1 with
       | some s, some sy => D11b.specMatches (e.2.2.2 D11b.idLib).spec s && (sy.staticType == some e.2.2.1) &&
-          (sy.refine == "refineNonNull") && (e.2.2.2 D11b.idLib).spec.refine.isSome
+          ((sy.refine == "refineNonNull") == (e.2.2.2 D11b.idLib).spec.refine.isSome) &&
+          ((sy.refine == "none") == (e.2.2.2 D11b.idLib).spec.refine.isNone)
       | _, _ => false) = true ∧
     (D11b.mathTable.all fun e =>
       match Std.find? e.2.1, Std.syntax? e.2.1 with
@@ -830,11 +832,11 @@ def totalityOnlySearched : List String :=
   (Generated.stdlibSyntax.map (·.var)).filter fun v => !totalityProved.contains v
 
 set_option maxRecDepth 16384 in
-/-- 41 of the 80 exported functions are proved total end to end, every one of them is an entry of the
-regenerated syntax table, and these 39 are not (regenerated: a function added to cty/function/stdlib shows
+/-- 42 of the 80 exported functions are proved total end to end, every one of them is an entry of the
+regenerated syntax table, and these 38 are not (regenerated: a function added to cty/function/stdlib shows
 up in the second list and fails this theorem until the list is updated) -/
 theorem totality_bookkeeping :
-    totalityProved.length = 41 ∧ totalityProved.all (fun v => (Generated.stdlibSyntax.map (·.var)).contains v) = true ∧
+    totalityProved.length = 42 ∧ totalityProved.all (fun v => (Generated.stdlibSyntax.map (·.var)).contains v) = true ∧
     totalityOnlySearched =
       ["AssertNotNullFunc", "BytesLenFunc", "BytesSliceFunc", "CSVDecodeFunc", "CoalesceFunc", "ConcatFunc", "ContainsFunc",
        "DistinctFunc", "ElementFunc", "EqualFunc", "FlattenFunc", "FormatDateFunc", "FormatFunc", "FormatListFunc",
@@ -842,7 +844,7 @@ theorem totality_bookkeeping :
        "LessThanFunc", "LessThanOrEqualToFunc", "LookupFunc", "MergeFunc", "NotEqualFunc", "ParseIntFunc",
        "RegexAllFunc", "RegexFunc", "SetHasElementFunc", "SetIntersectionFunc", "SetProductFunc",
        "SetSubtractFunc", "SetSymmetricDifferenceFunc", "SetUnionFunc", "SliceFunc", "SortFunc", "StrlenFunc",
-       "TimeAddFunc", "ZipmapFunc"] := by
+       "ZipmapFunc"] := by
   refine ⟨by decide, by decide, by decide⟩
 
 /-! ### the hypotheses are satisfiable -/
